@@ -62,10 +62,31 @@ Definition sax_escape (s : str) : str :=
 (** escape(data, entities) with the one-pair dictionary python-pptx uses. *)
 Definition sax_escape_q (s : str) : str := replace1 c_quot e_quot (sax_escape s).
 
+(** escape(data, entities) where the dictionary also maps TAB, LF and CR to character
+    references (what an attribute value needs to survive attribute-value normalisation).
+    The replacement texts hold none of the keys, so the dictionary order is immaterial. *)
+Definition e_tab : str := [38; 35; 57; 59].                 (* &#9;  *)
+Definition e_lf  : str := [38; 35; 49; 48; 59].             (* &#10; *)
+Definition e_cr  : str := [38; 35; 49; 51; 59].             (* &#13; *)
+
+Definition rep_if (b : bool) (k : N) (rep : str) (s : str) : str := if b then replace1 k rep s else s.
+
+(** escape with any sub-dictionary of quote / TAB / LF / CR *)
+Definition sax_escape_g (q t l r : bool) (s : str) : str :=
+  rep_if r c_cr e_cr (rep_if l c_lf e_lf (rep_if t c_tab e_tab (rep_if q c_quot e_quot (sax_escape s)))).
+
+Definition sax_escape_qw (s : str) : str := sax_escape_g true true true true s.
+
 (** The single-pass reading of the same functions (equality proved in Escape_proofs). *)
 Definition esc_char (c : N) : str :=
   if c =? c_amp then e_amp else if c =? c_lt then e_lt else if c =? c_gt then e_gt else [c].
 Definition esc_char_q (c : N) : str := if c =? c_quot then e_quot else esc_char c.
+Definition esc_char_g (q t l r : bool) (c : N) : str :=
+  if (c =? c_quot) && q then e_quot
+  else if (c =? c_tab) && t then e_tab
+  else if (c =? c_lf) && l then e_lf
+  else if (c =? c_cr) && r then e_cr
+  else esc_char c.
 
 (** ---- references ---- *)
 Definition hex_val (c : N) : option N :=
@@ -218,19 +239,24 @@ Definition no_ws_ctl (s : str) : bool :=
   forallb (fun c => negb ((c =? c_tab) || (c =? c_lf) || (c =? c_cr))) s.
 
 (** ---- sinks ---- *)
-Inductive esc := EscNone | EscSax | EscSaxQuot | NotText.
+(** Escaping applied to a substituted value: none; saxutils.escape with a dictionary holding
+    the quote (q), TAB (t), LF (l), CR (r) entries that are set; or the value is not text. *)
+Inductive esc := EscNone | EscSaxWith (q t l r : bool) | NotText.
+Definition EscSax : esc := EscSaxWith false false false false.
+Definition EscSaxQuot : esc := EscSaxWith true false false false.
+Definition EscSaxQuotWs : esc := EscSaxWith true true true true.
 
 Definition esc_eqb (a b : esc) : bool :=
   match a, b with
-  | EscNone, EscNone | EscSax, EscSax | EscSaxQuot, EscSaxQuot | NotText, NotText => true
+  | EscNone, EscNone | NotText, NotText => true
+  | EscSaxWith q t l r, EscSaxWith q' t' l' r' => Bool.eqb q q' && Bool.eqb t t' && Bool.eqb l l' && Bool.eqb r r'
   | _, _ => false
   end.
 
 Definition apply_esc (e : esc) (s : str) : str :=
   match e with
   | EscNone => s
-  | EscSax => sax_escape s
-  | EscSaxQuot => sax_escape_q s
+  | EscSaxWith q t l r => sax_escape_g q t l r s
   | NotText => s
   end.
 
@@ -252,33 +278,49 @@ Definition lex_slot (cx : ctx) (payload : str) : slot_result :=
   end.
 
 (** Values that are not caller text (integers, enumeration tokens, relationship ids,
-    library-made names): no markup metacharacter. *)
+    library-made names): no markup metacharacter (and no TAB, LF, CR: see no_ws_ctl). *)
 Definition is_meta (c : N) : bool := (c =? c_amp) || (c =? c_lt) || (c =? c_gt) || (c =? c_quot).
 Definition plain (s : str) : bool := forallb (fun c => negb (is_meta c)) s.
 
-(** The decision table. *)
+(** The decision table: the slot gives back EXACTLY the string, for every string.
+    An attribute value needs the quote and the three white-space characters escaped,
+    element text needs the carriage return escaped (line-end handling). *)
+Definition exact_ok (cx : ctx) (q t l r : bool) : bool :=
+  match cx with AttrDq => q && t && l && r | Text => r end.
+
 Definition sink_ok (cx : ctx) (e : esc) : bool :=
-  match e, cx with
-  | NotText, _ => true
-  | EscSaxQuot, _ => true
-  | EscSax, Text => true
-  | EscSax, AttrDq => false
-  | EscNone, _ => false
+  match e with
+  | NotText => true
+  | EscNone => false
+  | EscSaxWith q t l r => exact_ok cx q t l r
+  end.
+
+(** the weaker requirement: exact for strings without TAB, LF, CR (markup safety only) *)
+Definition markup_ok (cx : ctx) (e : esc) : bool :=
+  match e with
+  | NotText => true
+  | EscNone => false
+  | EscSaxWith q _ _ _ => match cx with AttrDq => q | Text => true end
   end.
 
 (** A string on which a rejected combination goes wrong. *)
 Definition witness (cx : ctx) (e : esc) : str :=
-  match e, cx with
-  | EscSax, AttrDq => [c_quot]
-  | _, _ => [c_amp]
+  match e with
+  | EscSaxWith q t l r =>
+      match cx with
+      | AttrDq => if negb q then [c_quot] else if negb t then [c_tab] else if negb l then [c_lf] else [c_cr]
+      | Text => [c_cr]
+      end
+  | _ => [c_amp]
   end.
 
 Record sink := { sk_id : N; sk_ctx : ctx; sk_esc : esc }.
 
 Definition sink_good (k : sink) : bool := sink_ok (sk_ctx k) (sk_esc k).
+Definition sink_markup_good (k : sink) : bool := markup_ok (sk_ctx k) (sk_esc k).
 Definition sink_witness (k : sink) : str := witness (sk_ctx k) (sk_esc k).
 (** does the witness really break this sink (computable form of the refutation) *)
 Definition sink_breaks (k : sink) : bool :=
   negb (slot_result_eqb (lex_slot (sk_ctx k) (apply_esc (sk_esc k) (sink_witness k)))
-                        (Got (norm (sk_ctx k) (sink_witness k)))).
+                        (Got (sink_witness k))).
 Close Scope N_scope.
